@@ -10,7 +10,7 @@ from ..harness import World, execute, place_summary, probe, violation
 
 LEVEL = "exploration"
 PLAN = {
-    "quick": {"mem": 240, "redis": 330, "rabbit": 330},
+    "quick": {"mem": 200, "redis": 280, "rabbit": 280},
     "thorough": {"mem": 6000, "redis": 20000, "rabbit": 20000},
 }
 BUDGET = {"quick": 50, "thorough": 900}
@@ -19,7 +19,7 @@ RULE = (
     "1 ms idle polling), run for 4-20 consecutive iterations with per-iteration actor durations and outcomes from a profile: "
     "constant / growing / shrinking / random / occasionally longer than p (missed slots), success / failure with a retry chain / "
     "failure with retries exhausted; TTL set in part of the runs; in 40% of the runs results are stored through a results broker "
-    "that stalls for 0.6 or 1.3 periods (slow I/O); retry delays from a table. For every completed iteration i "
+    "that stalls for 0.6 or 1.3 periods (slow I/O) and may fail one store outright; retry delays from a table. For every completed iteration i "
     "(scheduled S_i, reschedule requeue issued at F_i with parameters P'): exactly one message with the id afterwards; "
     "P'.already_tried == 0; P'.timestamp within the requeue call; S_{i+1} = P'.next_execution_time with F_i < S_{i+1} <= F_i + p "
     "and S_{i+1} >= S_i + p; first delivery not before deferred_until. cron= is not exercisable (croniter is not installed). "
@@ -30,6 +30,10 @@ RULE = (
 )
 SHRINK_LISTS = ("profile",)
 ASSUMPTIONS = ["cron schedules are not exercised: croniter is absent in this sandbox (the cron branch raises ImportError)"]
+
+
+class _ResultsBrokerDown(Exception):
+    pass
 
 
 def gen(rng, broker, tier):
@@ -82,6 +86,7 @@ def gen(rng, broker, tier):
         # the graceful period is over) 0-6 loop steps after the body ended
         stop_at = {"iter": stop_at["iter"], "offset": rng.randint(0, 6), "anchor": "force"}
     return {"period_s": p, "profile": prof, "retries": retries, "until_us": until, "slow_store_us": slow, "stop_at": stop_at,
+            "store_fails_at": rng.choice([None, 1, 2, 3]) if slow else None,
             "ttl_s": rng.choice([None, None, max(p * 3, 40), 100000]),
             "retry_table_us": [rng.choice([0, 100_000, 700_000])],
             "knobs": {"step_cost": rng.choice([0, 0, 1, "rand"]),
@@ -98,9 +103,16 @@ async def _main(sim, sc, out):
         rb = connw.results_bucket_broker
         inner_store = rb.store_bucket
 
+        n_store = [0]
+
         async def slow_store(id_, payload):
+            n_store[0] += 1
             sim.count("fault:slow-store")
             await asyncio.sleep(min(slow, 20_000_000) / 1e6)
+            if sc.get("store_fails_at") == n_store[0]:
+                # the results broker is down for this one call (a client library's own error class, not an OSError)
+                sim.count("fault:result-store-raises")
+                raise _ResultsBrokerDown("results broker is down")
             return await inner_store(id_, payload)
 
         rb.store_bucket = slow_store
@@ -210,10 +222,19 @@ async def _main(sim, sc, out):
     rec.listeners.append(listener)
     wt = sim.loop.spawn("w", w.run())
     n_iter = len(prof)
-    horizon = sim.clock.us + sum(max(p_us, x["dur_us"]) + p_us + (sc["retries"] + 1) * (sc["retry_table_us"][0] + 3_500_000)
-                                 for x in prof) + 10_000_000
+    horizon = sim.clock.us + sum(max(p_us, x["dur_us"]) + p_us + (sc["retries"] + 1) * (sc["retry_table_us"][0] + 3_500_000 + (slow or 0))
+                                 for x in prof) + 10_000_000 + 4 * max(p_us, slow or 0)
     while sim.clock.us < horizon and iter_no[0] < n_iter and not wt.done():
         await asyncio.sleep(min(0.5, sc["period_s"] / 4))
+    last_progress = max((e.end_us or e.us for e in rec.events if e.id == "rj" and e.node == "w"), default=0)
+    quiet = sim.clock.us - last_progress
+    ttl_us = (sc["ttl_s"] or 10**9) * 1_000_000
+    if stop["us"] is None and iter_no[0] < n_iter and not wt.done() and quiet > max(3 * p_us, 3 * (slow or 0), 10_000_000) + 5_000_000 \
+            and sim.clock.us - t_enq < ttl_us:
+        # every run leaves a successor, so the chain cannot come to a halt while the worker is running (judged when
+        # nothing has happened to the message for 3 periods / 3 store stalls / 10 s, and its ttl has not run out)
+        V.append(violation("chain-stalled", f"C06/{b}/chain-stalled/{place_summary(world.inspect(), 'rj')}",
+                           iterations=iter_no[0], of=n_iter, store_fails_at=sc.get("store_fails_at")))
     t_sig = stop["us"] if stop["us"] is not None else sim.clock.us
     if stop["us"] is None:
         stop["us"] = t_sig
